@@ -13,6 +13,7 @@ independent re-simulation of the returned point (no worse than the start, hard t
 """
 
 import hashlib
+import os
 import math
 
 import numpy as np
@@ -231,8 +232,13 @@ def gen_calibration(ch):
             ppops = list(parset.pars[par_name].ts.keys())
             mode = ch.pick(f"adj[{i}].popmode", ["pop", "none", "all"])
             pop = {"pop": ppops[ch.choose(f"adj[{i}].pop", len(ppops))], "none": None, "all": "all"}[mode]
-        lo, hi = [(0.5, 1.5), (0.1, 10.0), (0.9, 1.1), (0.0, 2.0)][ch.choose(f"adj[{i}].bounds", 4)]
-        if (par_name, pop) not in [(a[0], a[1]) for a in adjustables]:
+        # a lower limit of 0.0 is Project.calibrate's documented default, so it gets half of the weight
+        lo, hi = [(0.5, 1.5), (0.0, 2.0), (0.1, 10.0), (0.0, 10.0), (0.9, 1.1), (0.0, 1.0)][ch.choose(f"adj[{i}].bounds", 6)]
+        # Two entries addressing the same scale factor (the same (par, pop), or a population-specific
+        # entry next to a pop=None entry that expands to every population) carry contradictory bounds
+        # for one quantity: the property says nothing about which wins, so such problems are not posed.
+        clash = any(a[0] == par_name and (a[1] == pop or (a[1] != "all" and pop != "all" and (a[1] is None or pop is None))) for a in adjustables)
+        if not clash:
             adjustables.append((par_name, pop, lo, hi))
     # measurable candidates: outputs with time data
     mc = []
@@ -268,6 +274,10 @@ def gen_calibration(ch):
         "randseed": ch.choose("randseed", 2**31 - 1),
         "clock": _clock_spec(ch),
         "entry": ch.pick("entry_point", ["Project.calibrate", "calibration.calibrate"]),
+        # documented pass-through to the optimizer ("e.g. stepsize"): large first steps make the limits bind at once
+        "stepsize": [None, None, 0.5, 1.0, 2.5][ch.choose("stepsize", 5)],
+        # where inside its limits each adjusted scale factor starts (the caller's current calibration)
+        "start_factors": ch.pick("start_factors", ["as_is", "near_lower", "as_is", "at_lower", "at_upper", "near_lower", "near_upper"]),
     }
     return spec
 
@@ -412,6 +422,19 @@ def execute(spec, fault, bump):
         P.settings.update_time_vector(end=P.settings.sim_end + spec["end_offset"])
     parset = P.parsets[0]
     progset = P.progsets[0] if len(P.progsets) else None
+    if kind == "calibrate" and spec.get("start_factors", "as_is") != "as_is":
+        for par_name, pop, lo, hi in [tuple(a) for a in spec["adjustables"]]:
+            v = {"at_lower": lo, "at_upper": hi, "near_lower": lo + 0.02 * (hi - lo), "near_upper": hi - 0.02 * (hi - lo)}[spec["start_factors"]]
+            if par_name in parset.pars:
+                par = parset.pars[par_name]
+                if pop == "all":
+                    par.meta_y_factor = v
+                else:
+                    for pn in [pop] if pop is not None else list(par.y_factor.keys()):
+                        par.y_factor[pn] = v
+            else:
+                tn, src = par_name.split("_from_")
+                parset.transfers[tn][src].y_factor[pop] = v
     clock = SimClock(spec["clock"]["costs"], {int(k): tuple(v) for k, v in spec["clock"]["faults"].items()})
     state = {"n_process": 0, "history": [], "last_result": None, "last_model": None, "fault_fired": False, "bad_objective": None}
 
@@ -528,6 +551,8 @@ def execute(spec, fault, bump):
 
                 seams.patch(acal, "_calculate_objective", obj_wrapper)
                 kwargs = {"maxiters": spec["maxiters"], "randseed": spec["randseed"]}
+                if spec.get("stepsize"):
+                    kwargs["stepsize"] = spec["stepsize"]
                 if spec["entry"] == "Project.calibrate":
                     same_bounds = len({(a[2], a[3]) for a in adjustables}) == 1 and all(a[1] is None for a in adjustables)
                     if same_bounds:
@@ -758,6 +783,8 @@ def execute(spec, fault, bump):
                 violate("objective_evaluation_raises", f"{inner[-1][0]}:{inner[-1][1]}", {"exception": f"{type(exc).__name__}: {str(exc)[:300]}"})
             else:
                 out["refused"] = type(exc).__name__
+                if os.environ.get("ATOMSIM_DEBUG_REFUSED"):
+                    print("REFUSED", type(exc).__name__, str(exc)[:300], [f for f in frames][-4:], {k: spec[k] for k in spec if k != "clock"}, flush=True)
         return out
 
     if fault is not None and state["fault_fired"] and fault[1] in ("InjectedFault", "MemoryError", "KeyboardInterrupt"):
@@ -769,6 +796,13 @@ def execute(spec, fault, bump):
         # An absorbed, injected BadInitialization makes one evaluation look infinitely bad although its point
         # is fine; "no worse than the start" is a statement about true objective values, so the value oracles
         # are evaluated on fault-free executions only (side effects and bounds were checked above / below).
+        return out
+    if fault is not None and state["fault_fired"] and fault[1] == "FailedConstraint" and hist and math.isfinite(hist[0][1]) and any(list(h[0]) == list(hist[0][0]) and h[1] == math.inf for h in hist[1:]):
+        # The injected projection failure landed on the optimizer's own re-evaluation of the STARTING point. The
+        # projection is a deterministic function of the point, so outside the simulator a failure there would have
+        # been seen by optimize()'s initial-objective check already (InvalidInitialConditions); this fault
+        # placement destroys the baseline "the start" refers to and is not one the property quantifies over.
+        bump("probe:constraint_fault_on_start_point_discarded")
         return out
     if state["bad_objective"] is not None:
         violate("objective_not_the_documented_sum", kind, state["bad_objective"])
